@@ -4,7 +4,9 @@ package c14
 import (
 	"encoding/json"
 	"fmt"
+	"io"
 	"math"
+	"os"
 	"sort"
 	"strconv"
 	gostrings "strings"
@@ -516,6 +518,28 @@ func floatOK(got string, want float64) error {
 	return nil
 }
 
+// captureStdout runs f with os.Stdout redirected into a pipe and returns what was written.
+func captureStdout(f func()) (string, error) {
+	r, w, err := os.Pipe()
+	if err != nil {
+		return "", err
+	}
+	old := os.Stdout
+	os.Stdout = w
+	done := make(chan string, 1)
+	go func() {
+		b, _ := io.ReadAll(r)
+		done <- string(b)
+	}()
+	func() {
+		defer func() { os.Stdout = old; w.Close() }()
+		f()
+	}()
+	out := <-done
+	r.Close()
+	return out, nil
+}
+
 func checkFrt(c FrtCase) error {
 	switch c.What {
 	case "SInterP":
@@ -551,10 +575,33 @@ func checkFrt(c FrtCase) error {
 		}
 	case "Sprintf1":
 		v, _, _ := c.value()
+		// the verb alone, and inside literal text that contains escaped percent signs
+		pre, post := gostrings.ReplaceAll(c.Pre, "%", "%%"), gostrings.ReplaceAll(c.Post, "%", "%%")
 		for _, verb := range []string{"%v", "[%v]", "%d|", "%s", "%q", "%5v"} {
-			if g, w := frt.Sprintf1(verb, v), fmt.Sprintf(verb, v); g != w {
-				return fmt.Errorf("Sprintf1(%q, %s): got %q, fmt gives %q", verb, c.Kind, g, w)
+			for _, f := range []string{verb, pre + verb + post, verb + "%%", "%%" + verb + ": 100%% done"} {
+				if g, w := frt.Sprintf1(f, v), fmt.Sprintf(f, v); g != w {
+					return fmt.Errorf("Sprintf1(%q, %s): got %q, fmt gives %q", f, c.Kind, g, w)
+				}
 			}
+		}
+	case "Printf1":
+		v, _, _ := c.value()
+		pre, post := gostrings.ReplaceAll(c.Pre, "%", "%%"), gostrings.ReplaceAll(c.Post, "%", "%%")
+		for _, f := range []string{"%v\n", pre + "%v" + post, "%s%%", "%d%% of " + pre, "%v"} {
+			got, err := captureStdout(func() { frt.Printf1(f, v) })
+			if err != nil {
+				return fmt.Errorf("harness: %v", err)
+			}
+			if w := fmt.Sprintf(f, v); got != w {
+				return fmt.Errorf("Printf1(%q, %s) printed %q, fmt gives %q", f, c.Kind, got, w)
+			}
+		}
+		got, err := captureStdout(func() { frt.Println(c.S) })
+		if err != nil {
+			return fmt.Errorf("harness: %v", err)
+		}
+		if got != c.S+"\n" {
+			return fmt.Errorf("Println(%q) printed %q", c.S, got)
 		}
 	case "Sprintf2":
 		v, _, _ := c.value()
@@ -662,7 +709,7 @@ func TestFrt(t *testing.T) {
 	defer e.Flush()
 	rapid.Check(t, func(rt *rapid.T) {
 		c := FrtCase{}
-		c.What = rapid.SampledFrom([]string{"SInterP", "SInterP", "SInterP2", "Sprintf1", "Sprintf2", "Pipe", "If", "Tuple", "Ops"}).Draw(rt, "what")
+		c.What = rapid.SampledFrom([]string{"SInterP", "SInterP", "SInterP2", "Sprintf1", "Sprintf2", "Printf1", "Pipe", "If", "Tuple", "Ops"}).Draw(rt, "what")
 		c.Kind = rapid.SampledFrom(kinds).Draw(rt, "kind")
 		c.I = rapid.OneOf(rapid.Int64Range(-5, 300), rapid.Int64(), rapid.SampledFrom([]int64{math.MinInt64, math.MaxInt64, -1, 0, 127, 128, 255, 256, 65535, 1 << 31, 1 << 32})).Draw(rt, "i")
 		c.U = rapid.OneOf(rapid.Uint64Range(0, 300), rapid.Uint64(), rapid.SampledFrom([]uint64{math.MaxUint64, 1 << 63, 1<<63 - 1, 255, 65535, 1 << 32})).Draw(rt, "u")
@@ -677,7 +724,7 @@ func TestFrt(t *testing.T) {
 		labels := []string{"what:" + c.What}
 		nt := false
 		switch c.What {
-		case "SInterP", "SInterP2", "Sprintf1", "Sprintf2":
+		case "SInterP", "SInterP2", "Sprintf1", "Sprintf2", "Printf1":
 			labels = append(labels, "kind:"+c.Kind)
 			nt = gostrings.HasPrefix(c.Kind, "uint") || gostrings.HasPrefix(c.Kind, "float") || c.Kind == "namedU8"
 		default:
